@@ -18,6 +18,7 @@ import (
 // Line break are inserted if a line is longer than 1000 characters (including CRLF).
 func StringToBody(str, encoding string) ([]byte, error) {
 	in := bufio.NewScanner(bytes.NewBufferString(str))
+	in.Buffer(nil, len(str)+1) // A single line can be as long as the whole text.
 	out := new(bytes.Buffer)
 
 	var err error
@@ -36,6 +37,9 @@ func StringToBody(str, encoding string) ([]byte, error) {
 				break
 			}
 		}
+	}
+	if err := in.Err(); err != nil {
+		return nil, err
 	}
 
 	translator, err := charset.TranslatorTo(encoding)
